@@ -14,7 +14,7 @@ import (
 func init() {
 	register(&Prop{
 		ID: "C13", Level: "exploration",
-		Rule: "one case = a router with 0-5 global middleware, each registered with WithMiddleware (all handlers) or WithMiddlewareFor with a drawn non-empty scope mask (sub-batch: DefaultOptions prepended), 2-5 routes with 0-3 route-specific middleware each, and all five handler kinds reachable (route, no-route, no-method, redirect, options), plus two routes that ignore trailing slashes reached directly and with the slash toggled. Every middleware appends its identifier to a per-request trace on entry. Sequential clauses: for each handler kind the trace equals the global middleware whose scope includes the kind, in registration order, followed for routes by the route-specific ones, each exactly once; Update replaces the route-specific part; Route.Handle runs the bare handler; Route.HandleMiddleware runs only the route-specific chain. Concurrent clause: 2-3 tasks create routes through the public Router.NewRoute (then HandleRoute/UpdateRoute) with different route-specific middleware under the seeded scheduler (yield point between applying the options and composing the chain), mixed with tasks that go through Handle/Update; afterwards every route's trace must be its own; in HB mode the same schedules run under the race detector. Non-trivial: at least 3 global middleware or a context switch inside NewRoute; distinct = hash of (configuration, programs, schedule).",
+		Rule: "one case = a router with 0-5 global middleware, each registered with WithMiddleware (all handlers) or WithMiddlewareFor with a drawn scope mask (an empty one now and then: wraps nothing) (sub-batch: DefaultOptions prepended), 2-5 routes with 0-3 route-specific middleware each, and all five handler kinds reachable (route, no-route, no-method, redirect, options), plus two routes that ignore trailing slashes reached directly and with the slash toggled. Every middleware appends its identifier to a per-request trace on entry. Sequential clauses: for each handler kind the trace equals the global middleware whose scope includes the kind, in registration order, followed for routes by the route-specific ones, each exactly once; Update replaces the route-specific part; Route.Handle runs the bare handler; Route.HandleMiddleware runs only the route-specific chain. Concurrent clause: 2-3 tasks create routes through the public Router.NewRoute (then HandleRoute/UpdateRoute) with different route-specific middleware under the seeded scheduler (yield point between applying the options and composing the chain), mixed with tasks that go through Handle/Update; afterwards every route's trace must be its own; in HB mode the same schedules run under the race detector. Non-trivial: at least 3 global middleware or a context switch inside NewRoute; distinct = hash of (configuration, programs, schedule).",
 		Run:  runC13, HBRun: runC13,
 		Quick: 40000, Thorough: 8000000, QuickHB: 6000, ThoroughHB: 800000,
 		Real: []string{"fox.New option processing, applyMiddleware/applyRouteMiddleware, Router.NewRoute, route chains, ServeHTTP dispatch"},
@@ -75,8 +75,8 @@ func runC13(src sim.Source, o Opts) *Result {
 					mask |= sc
 				}
 			}
-			if mask == 0 {
-				mask = fox.RouteHandler
+			if mask == 0 && src.Intn("emptymask", 3) != 2 {
+				mask = fox.RouteHandler // (an empty mask stays empty one time in three: such a middleware wraps nothing)
 			}
 			g.Scope = mask
 			opts = append(opts, fox.WithMiddlewareFor(mask, traceMW(g.ID)))
